@@ -12,6 +12,9 @@
  * (hw_size of the data pointer).  The pool is driven through mpool_t_malloc/mpool_t_free and the exit handler it
  * registers with atexit(); it cannot be re-created after `mp_exit`/`end`, so pool cases need one process each
  * (bb_fresh) and further pool ops after the exit handler ran answer `skip`.
+ *
+ * Pools: MPOOL is instantiated with the cache sizes 1, 2, 3 and 4 (CTASSERT(size > 0) allows 1); `mp_init <size>`
+ * ends the pool in use (as `mp_exit` does) and takes the one of that size; a case starts with size 4.
  */
 #include "hcommon.h"
 #include "hwrap.h"
@@ -29,6 +32,46 @@
 
 struct pobj { char x[40]; };
 MPOOL(t, struct pobj, 4);
+MPOOL(t1, struct pobj, 1);
+MPOOL(t2, struct pobj, 2);
+MPOOL(t3, struct pobj, 3);
+static size_t mp_size = 4;		/* cache size of the pool in use */
+
+static struct pobj *
+pool_malloc(void)
+{
+
+	switch (mp_size) {
+	case 1:
+		return (mpool_t1_malloc());
+	case 2:
+		return (mpool_t2_malloc());
+	case 3:
+		return (mpool_t3_malloc());
+	default:
+		return (mpool_t_malloc());
+	}
+}
+
+static void
+pool_free(struct pobj * p)
+{
+
+	switch (mp_size) {
+	case 1:
+		mpool_t1_free(p);
+		break;
+	case 2:
+		mpool_t2_free(p);
+		break;
+	case 3:
+		mpool_t3_free(p);
+		break;
+	default:
+		mpool_t_free(p);
+		break;
+	}
+}
 
 static struct elasticarray * EA = NULL;
 static struct elasticqueue * EQ = NULL;
@@ -65,15 +108,17 @@ num(int i)
 #define sm_l2()		((void)0)
 #define mp_l2()		((void)0)
 
-/* the exit handler the pool registered (atexit() from library code goes to the wrapper) */
-static void (* bb_exitfn)(void) = NULL;
+/* the exit handlers the pools registered (atexit() from library code goes to the wrapper) */
+static void (* bb_exitfn[8])(void);
+static int bb_nexitfn = 0;
 static int bb_pool_dead = 0;
 
 static void
 bb_atexit_hook(void (* fn)(void))
 {
 
-	bb_exitfn = fn;
+	if (bb_nexitfn < 8)
+		bb_exitfn[bb_nexitfn++] = fn;
 }
 #else
 #define EA_SIZE()	(EA->size)
@@ -105,10 +150,46 @@ sm_l2(void)
 	l2_common();
 }
 
+/* record and static stack of the pool in use */
+static struct mpool *
+pool_rec(void)
+{
+
+	return (mp_size == 1 ? &mpool_t1_rec : mp_size == 2 ? &mpool_t2_rec : mp_size == 3 ? &mpool_t3_rec : &mpool_t_rec);
+}
+
+static void **
+pool_static(void)
+{
+
+	return (mp_size == 1 ? mpool_t1_static : mp_size == 2 ? mpool_t2_static : mp_size == 3 ? mpool_t3_static :
+	    mpool_t_static);
+}
+
+static void
+pool_atexit(void)
+{
+
+	switch (mp_size) {
+	case 1:
+		mpool_t1_atexit();
+		break;
+	case 2:
+		mpool_t2_atexit();
+		break;
+	case 3:
+		mpool_t3_atexit();
+		break;
+	default:
+		mpool_t_atexit();
+		break;
+	}
+}
+
 static void
 mp_l2(void)
 {
-	struct mpool * M = &mpool_t_rec;
+	struct mpool * M = pool_rec();
 	size_t i;
 
 	printf(" | stack=");
@@ -136,13 +217,14 @@ pool_exit(void)
 	size_t i, leaked = 0;
 
 #ifdef HC_BLACKBOX
-	/* the handler runs once (as at process exit); afterwards the pool is gone for good */
-	if (bb_exitfn != NULL && !bb_pool_dead) {
-		LIB(bb_exitfn());
+	/* the handlers run once (as at process exit); afterwards the pools are gone for good */
+	if (bb_nexitfn > 0 && !bb_pool_dead) {
+		while (bb_nexitfn > 0)
+			LIB((bb_exitfn[--bb_nexitfn])());
 		bb_pool_dead = 1;
 	}
 #else
-	LIB(mpool_t_atexit());
+	LIB(pool_atexit());
 #endif
 	/* every object that is not in use must be gone now */
 	for (i = 0; i < npobjs; i++)
@@ -153,11 +235,11 @@ pool_exit(void)
 			free(pobjs[i].p);
 	npobjs = 0;
 #ifndef HC_BLACKBOX
-	mpool_t_rec.stacklen = 0;
-	mpool_t_rec.allocsize = 4;
-	mpool_t_rec.allocs = mpool_t_static;
-	mpool_t_rec.nallocs = mpool_t_rec.nempties = 0;
-	mpool_t_rec.state = 0;
+	pool_rec()->stacklen = 0;
+	pool_rec()->allocsize = mp_size;
+	pool_rec()->allocs = pool_static();
+	pool_rec()->nallocs = pool_rec()->nempties = 0;
+	pool_rec()->state = 0;
 #endif
 	return (leaked);
 }
@@ -191,6 +273,7 @@ main(void)
 		if (hc_is("case", 1)) {
 			free_all();
 			(void)pool_exit();
+			mp_size = 4;
 			hw_reset();
 			printf("case %s", hc_tok[1]);
 		} else if (hw_schedule_op(hc_tok, hc_ntok)) {
@@ -459,10 +542,25 @@ main(void)
 			printf("skip");
 		}
 #endif
-		else if (hc_is("mp_malloc", 0)) {
+		else if (hc_is("mp_init", 1)) {
+			unsigned long long k = num(1);
+
+			if (k < 1 || k > 4)
+				printf("bad-op");
+			else {
+				(void)pool_exit();
+				mp_size = (size_t)k;
+#ifndef HC_BLACKBOX
+				/* (the pool taken is in its load-time state: every pool is put back when it is left) */
+				assert(pool_rec()->stacklen == 0 && pool_rec()->allocsize == mp_size && pool_rec()->state == 0);
+#endif
+				printf("ok");
+				L2C();
+			}
+		} else if (hc_is("mp_malloc", 0)) {
 			struct pobj * p;
 
-			LIB(p = mpool_t_malloc());
+			LIB(p = pool_malloc());
 			if (p == NULL)
 				printf("ok rf=%u null", hw_rf());
 			else {
@@ -509,7 +607,7 @@ main(void)
 					lastid = bid;
 				}
 				pobjs[best].inuse = 0;
-				LIB(mpool_t_free(pobjs[best].p));
+				LIB(pool_free(pobjs[best].p));
 				printf("ok rf=%u obj=%llu", hw_rf(), (unsigned long long)pobjs[best].id);
 				mp_l2();
 			}
@@ -523,7 +621,7 @@ main(void)
 				printf("skip");
 			else {
 				pobjs[i].inuse = 0;
-				LIB(mpool_t_free(pobjs[i].p));
+				LIB(pool_free(pobjs[i].p));
 				printf("ok rf=%u", hw_rf());
 				mp_l2();
 			}
